@@ -720,6 +720,7 @@ static int vnadata_save_common(vnadata_t *vdp, FILE *fp, const char *filename,
     const double complex *z0_vector = NULL;
     double z0_touchstone = 50.0;
     vnadata_t *conversions[VPT_NTYPES];
+    vnadata_internal_t *vdip_orig;
     vnadata_filetype_t old_filetype;
     bool default_format = false;
 
@@ -736,6 +737,7 @@ static int vnadata_save_common(vnadata_t *vdp, FILE *fp, const char *filename,
 	return -1;
     }
     aprecision = MAX(vdip->vdi_dprecision, 3);
+    vdip_orig = vdip;		/* vdip may move to a normalized copy */
     old_filetype = vdip->vdi_filetype;
 
     /*
@@ -1565,18 +1567,21 @@ out:
     }
     if (rc == -1) {
 	/*
-	 * A save that failed leaves the file type and format as they
-	 * were: take back the type deduced from the filename and the
-	 * default format.
+	 * A save that failed leaves the file type as it was: take back
+	 * the type deduced from the filename.
 	 */
-	vdip->vdi_filetype = old_filetype;
-	if (default_format) {
-	    free((void *)vdip->vdi_format_vector);
-	    vdip->vdi_format_vector = NULL;
-	    vdip->vdi_format_count = 0;
-	    free((void *)vdip->vdi_format_string);
-	    vdip->vdi_format_string = NULL;
-	}
+	vdip_orig->vdi_filetype = old_filetype;
+    }
+    if (default_format) {
+	/*
+	 * The default format is taken from the parameter type the
+	 * vnadata_t has at the time of each save: don't keep it.
+	 */
+	free((void *)vdip_orig->vdi_format_vector);
+	vdip_orig->vdi_format_vector = NULL;
+	vdip_orig->vdi_format_count = 0;
+	free((void *)vdip_orig->vdi_format_string);
+	vdip_orig->vdi_format_string = NULL;
     }
     for (int i = 0; i < VPT_NTYPES; ++i) {
 	vnadata_free(conversions[i]);
